@@ -133,32 +133,44 @@ def _r2(chk, repo):
 
 def _r3(chk, repo):
     ga = repo.cls(f"{GA}:Gaussian")
+    from .common import canon_fn, views
+    from ..pattern import norm as pn
     for name in ("cov", "prec", "sqrtcov", "sqrtprec"):
         p = ga.props.get(name)
         if p is None or p.setter is None:
             raise AnchorError(f"Gaussian.{name} setter not found")
-        t = _norm(p.setter)
         helper = f"get_sqrtprec_from_{name}"
         problems = []
-        if "ifself.dim>config.MIN_DIM_SPARSE:sparse_flag=Trueelse:sparse_flag=False" not in t:
-            problems.append("dense/sparse switch is not `self.dim > config.MIN_DIM_SPARSE`")
-        calls = [c for c in ast.walk(p.setter) if isinstance(c, ast.Call) and call_name(c) == helper]
-        if len(calls) != 1 or [_norm(a) for a in calls[0].args] != ["self.dim", "value", "sparse_flag"]:
-            problems.append(f"canonical form is not computed by {helper}(self.dim, value, sparse_flag)")
-        else:
+        v3 = canon_fn(repo, ga, p.setter, 3)
+        calls = [c for c in ast.walk(v3) if isinstance(c, ast.Call) and call_name(c) == helper]
+        rec = len(calls) == 1
+        if rec:
+            args = [pn(a) for a in calls[0].args]
+            SW = ("config.MIN_DIM_SPARSE<self.dim", "self.dim>config.MIN_DIM_SPARSE")
+            if len(args) != 3 or args[0] != "self.dim" or args[1] != "value":
+                problems.append(f"canonical form is not computed by {helper}(self.dim, value, sparse_flag)")
+            elif args[2] not in SW:
+                problems.append(f"dense/sparse switch is `{args[2]}`, not `self.dim > config.MIN_DIM_SPARSE`")
             par = getattr(calls[0], "_parent", None)
-            names = [_norm(e) for e in par.targets[0].elts] if isinstance(par, ast.Assign) and isinstance(par.targets[0], ast.Tuple) else []
+            stored = []
+            if isinstance(par, ast.Assign) and isinstance(par.targets[0], ast.Tuple):
+                V = views(repo, ga, p.setter)
+                for e in par.targets[0].elts:
+                    pe = path_of(e)
+                    if pe and pe.startswith("self._"):
+                        stored.append(pe[6:])
+                    elif pe and any(f"self._{x}={pe}" in V for x in ("prec", "sqrtprec", "logdet", "rank", "cov", "sqrtcov") if f"self._{x}={pe}" in V):
+                        stored.append([x for x in ("prec", "sqrtprec", "logdet", "rank", "cov", "sqrtcov") if f"self._{x}={pe}" in V][0])
+                    else:
+                        stored.append("?" + (pe or ""))
             hf = repo.func(f"{GA}:{helper}")
             hret = [r for r in ast.walk(hf) if isinstance(r, ast.Return)]
             hnames = [_norm(e) for e in hret[-1].value.elts] if hret and isinstance(hret[-1].value, ast.Tuple) else []
-            if names != hnames:
-                problems.append(f"setter unpacks {names} but {helper} returns {hnames}")
-            for nm in names:
-                if f"self._{nm}={nm}" not in t:
-                    problems.append(f"canonical `{nm}` returned by the helper is not stored")
-        if "self._cov=None" not in t and name != "cov":
-            problems.append("a previously materialised covariance is not reset")
-        chk.add("C04-R3", f"{ga.qual}.@{name}=", not problems, site(repo, p.setter), f"switch, {helper}, canonical tuple stored", "; ".join(problems), p.setter)
+            if stored != hnames:
+                problems.append(f"the helper returns {hnames} but the setter stores them as {stored} (each canonical quantity must land in the field of its name)")
+            if name != "cov" and "self._cov=None" not in views(repo, ga, p.setter):
+                problems.append("a previously materialised covariance is not reset")
+        chk.decide("C04-R3", f"{ga.qual}.@{name}=", rec and not problems, rec, site(repo, p.setter), f"switch, {helper}, canonical tuple stored", "; ".join(problems), p.setter)
     for helper in HELPERS:
         hf = repo.func(f"{GA}:{helper}")
         g = CFG(hf)
@@ -287,16 +299,17 @@ def _r5(chk, repo):
     ga = repo.cls(f"{GA}:Gaussian")
     lp = repo.method(ga, "logpdf")[1]
     x = func_params(lp)[1]
-    S = {path_of(s.targets[0]): s.value for s in ast.walk(lp) if isinstance(s, ast.Assign) and path_of(s.targets[0])}
-    rets = [r for r in ast.walk(lp) if isinstance(r, ast.Return)]
-    ok = len(rets) == 1 and _norm(rets[0].value) in ("Z+logup", "logup+Z") and "Z" in S and "logup" in S and _norm(S["logup"]) == f"self._logupdf({x})" \
-        and x not in {n.id for n in ast.walk(S["Z"]) if isinstance(n, ast.Name)} \
-        and _norm(S["Z"]) == "-0.5*(self.rank*np.log(2*np.pi)+self.logdet.flatten())"
-    chk.add("C04-R5", f"{ga.qual}.logpdf", ok, site(repo, lp), "Z(rank, logdet) + _logupdf(x), Z independent of x",
+    from .common import views, canon_fn
+    V = views(repo, ga, lp)
+    Z = "-0.5*(self.rank*np.log(2*np.pi)+self.logdet.flatten())"
+    rets = [r for r in ast.walk(canon_fn(repo, ga, lp, 4)) if isinstance(r, ast.Return)]
+    ok = len(rets) == 1 and (f"return {Z}+self._logupdf({x})" in V or f"return self._logupdf({x})+{Z}" in V)
+    rec = any("self._logupdf(" in _norm(r) for r in rets)
+    chk.decide("C04-R5", f"{ga.qual}.logpdf", ok, rec, site(repo, lp), "Z(rank, logdet) + _logupdf(x), Z independent of x",
             "normalised and un-normalised Gaussian log-density do not differ by the x-independent constant -(rank log 2pi + logdet)/2", lp)
     lu = repo.method(ga, "_logupdf")[1]
-    t = _norm(lu)
-    ok = "dev=x-self.mean" in t and "mahadist=np.sum(np.square(self.sqrtprec@dev.T),axis=0)" in t and "return-0.5*mahadist.flatten()" in t
+    xx = func_params(lu)[1]
+    ok = f"return -0.5*np.sum(np.square(self.sqrtprec@({xx}-self.mean).T),axis=0).flatten()" in views(repo, ga, lu)
     chk.add("C04-R5", f"{ga.qual}._logupdf", ok, site(repo, lu), "-||sqrtprec @ (x - mean)||^2 / 2", "un-normalised Gaussian log-density changed", lu)
     dist = repo.cls("cuqi/distribution/_distribution.py:Distribution")
     dl = repo.method(dist, "_logd")[1]
